@@ -295,7 +295,21 @@ func FieldMenu() []FieldVariant {
 	add("F14-ptr-type", "Ptr *Embedded `json:\"ptr,omitempty\"` // 指针 @tag valid:\"exist\" json:\"p\"", true)
 	add("F15-mention-only", "Mention string `json:\"mention\"` // see @tag", false)
 	add("F16-long", "Long map[string][]*Embedded `protobuf:\"bytes,9,rep,name=long,proto3\" json:\"long,omitempty\" protobuf_key:\"bytes,1,opt,name=key,proto3\" protobuf_val:\"bytes,2,opt,name=value,proto3\"` // @tag valid:\"required\" json:\"l\"", true)
+	// keys that are a suffix / prefix of another key, same value: key matching must be on whole keys
+	add("F17-key-suffix-of-existing", "KeySuffix string `binding_valid:\"required\" json:\"ks\"` // @tag valid:\"required\"", true)
+	add("F17-key-prefix-of-existing", "KeyPrefix string `json:\"kp\" validx:\"required\"` // @tag valid:\"required\" json:\"kp\"", true)
+	add("F18-value-held-by-other-key", "OtherKey string `xvalid:\"a\" valid:\"b\"` // @tag valid:\"a\"", true)
 	return m
+}
+
+// DupKeyMenu: annotations that repeat a key. What the merged tag should be is not specified (so these variants are not
+// part of C06's space); that repeated runs leave the file unchanged is (C07).
+func DupKeyMenu() []FieldVariant {
+	return []FieldVariant{
+		{"D1-dup-key-added", "DupA string `json:\"da\"` // @tag valid:\"to=1~150\" valid:\"required\"", true},
+		{"D2-dup-key-overriding", "DupB string `json:\"db\" valid:\"old\"` // @tag valid:\"to=1~150\" valid:\"required\" form:\"f\"", true},
+		{"D3-dup-existing-key", "DupC string `json:\"dc\" valid:\"x\" valid:\"y\"` // @tag valid:\"z\"", true},
+	}
 }
 
 // Fillers are top-level declarations that are not annotated structs.
